@@ -6,11 +6,11 @@
       AAA: IN row 3 2020-01-01 BUY 2 @ 100;                                  OUT row 9 2021-03-01 SELL 1 @ 200
       BBB: IN row 3 (the same), row 4 2021-02-01 INTEREST 0.5 @ 150;         OUT row 9 (the same)
     i.e. the rows of the encoded input [ex2_code] of Proofs/TaxReportProofs.v / Proofs/RunComposeExamples.v: the rinput the
-    run assembles from the CELLS is [ex2_i] itself ([ok_input]).  Every hypothesis of [e2e_success] holds and the three US
+    run assembles from the CELLS is [ex2_i] itself ([ok_input]).  Every hypothesis of [E2E_success] holds and the three US
     reports come out with exit status 0.
 
     REJECTION: the same workbook with the TABLE END row of AAA's OUT table missing: exit status 1, no report; the hypothesis
-    [cause_sheet] of [e2e_rejection] holds (AAA is read after the accepted BBB).  Also: AAA sells 3 of the 2 bought
+    [cause_sheet] of [E2E_rejection] holds (AAA is read after the accepted BBB).  Also: AAA sells 3 of the 2 bought
     ([cause_lots_exhausted]); AAA buys on Coinbase and sells on Kraken ([cause_overdraft]; with -n the same run exits 0). *)
 From Coq Require Import List ZArith Bool Lia.
 From RP2V Require Import Base.Prelude Base.Time Base.Dec Base.Sorting Base.Assoc Model.Types Model.Generated Model.Txn
@@ -39,7 +39,7 @@ Proof.
   - intros t' evs B' HE. rewrite B in B'. injection B' as <-.
     destruct (built_matcher_outcome sched h t evs BH HE) as [(fs' & _ & Hne)|[HX _]]; [exact Hne|rewrite HF in HX; discriminate].
   - intros t' B'. rewrite B in B'. injection B' as <-. right.
-    pose proof (holders_ok_check _ HO) as Hok. split; [exact Hok|exact (never_overdrawn_check _ _ Hok HB)].
+    exact (never_overdrawn_check _ _ (holders_ok_check _ HO) HB).
 Qed.
 
 (** * the configuration file and the options *)
@@ -168,7 +168,7 @@ Proof. vm_compute. reflexivity. Qed.
 Lemma ok_input : e2e_input US opts0 0 ok_s ok_ps = Some ex2_i.
 Proof. vm_compute. reflexivity. Qed.
 
-(** * every hypothesis of [e2e_success] holds, and its conclusion *)
+(** * every hypothesis of [E2E_success] holds, and its conclusion *)
 Example e2e_success_nonvacuous :
   validate_config ok_secs = Ok ok_s /\ supported US opts0 /\
   rendered_workbook (pcfg_of ok_s ok_ts) ok_workbook ok_sheet ok_trailing (run_assets opts0 ok_s) /\
@@ -186,12 +186,13 @@ Proof.
   { intros a Ha. vm_compute in Ha. destruct Ha as [<-|[<-|[]]]; [exact rows_BBB|exact rows_AAA]. }
   split; [exact ok_valid|]. split; [exact (proj1 run_total_example)|]. split; [exact ok_rendered|]. split; [exact ROWS|].
   split; [exact ok_input|]. split; [exact (proj2 ex2_us_hyps)|].
-  destruct (e2e_success US opts0 ok_secs ok_ts ok_workbook (wv 0) 0 ok_s ok_sheet ok_trailing ok_valid (proj1 run_total_example))
+  destruct (E2E_success US opts0 ok_secs ok_ts ok_workbook (wv 0) 0 ok_s ok_sheet ok_trailing ok_valid (proj1 run_total_example))
     as (ps & i & l & E & HI & RM & DL & HG & _ & _).
   - left. reflexivity.
   - constructor.
   - constructor.
   - intros a H. discriminate H.
+  - vm_compute. discriminate.
   - exact ok_rendered.
   - intros a Ha. vm_compute in Ha. destruct Ha as [<-|[<-|[]]].
     + exists p_BBB. split; [exact expected_BBB|vm_compute; discriminate].
@@ -229,7 +230,7 @@ Qed.
 (** and through the theorem: non-zero exit status, no report *)
 Example e2e_rejection_instance :
   fst (rp2_model US opts0 ok_secs ok_ts bad_workbook (wv 0) 0) <> 0 /\ snd (rp2_model US opts0 ok_secs ok_ts bad_workbook (wv 0) 0) = [].
-Proof. apply e2e_rejection. right. right. left. exact (proj1 e2e_rejection_nonvacuous). Qed.
+Proof. apply E2E_rejection. right. right. left. exact (proj1 e2e_rejection_nonvacuous). Qed.
 
 (** * the lots run out: AAA sells 3 of the 2 it bought *)
 Definition sell_3 : src_out :=
@@ -308,4 +309,65 @@ Proof.
   split; [vm_compute; reflexivity|]. split; [right; left; reflexivity|]. split; [vm_compute; reflexivity|].
   split; [exact BH|]. split; [exact HE|]. split; [exact Hok|]. split; [reflexivity|].
   apply (C08Proofs.c08_rejected_iff (o_to opts0) [] [] od_t Hok). vm_compute. reflexivity.
+Qed.
+
+(** * an acquisition with a crypto fee (the case [E2E_success] leaves out): the two halves compose
+    AAA buys 2 with a crypto fee of 1/1024 (the fee cell of Proofs/ParserExample.v): the parser splits the row into the acquisition
+    and an artificial fee disposal with id -1.  The seam gives the run as the back end of [expected_all]; ComputedData exists for
+    the assembled rinput and [reports_ok_hyps] holds (both by computation), so [e2e_success_of_computed] applies: exit 0, the
+    three US reports. *)
+Definition buy_2020_fee : src_in :=
+  {| si_ts := k2020; si_exch := s_coinbase; si_holder := s_bob; si_type := [66; 85; 89];
+     si_spot := (100, 1); si_cin := (2, 1); si_cfee := Some (1, 1024); si_f1 := None; si_f2 := None; si_f3 := None;
+     si_uid := CEmpty; si_notes := CEmpty |}.
+Definition blocks_AAA_fee : list block :=
+  [ {| b_tab := TabOut; b_gap := [[CEmpty; cs [120]]]; b_kw := [cs [111; 117; 116]]; b_hdr := ex_hdr;
+       b_rows := [(SOut sell_2021, ex_junk)]; b_end := [cs TABLE_END; CNum 1 1]; b_width := 10 |};
+    {| b_tab := TabIn; b_gap := []; b_kw := [cs [73; 78]; cs [73; 78]]; b_hdr := ex_hdr;
+       b_rows := [(SIn buy_2020_fee, ex_junk)]; b_end := [cs TABLE_END]; b_width := 11 |} ].
+Definition fee_sheet (a : str) : list block := if str_eqb a s_AAA then blocks_AAA_fee else blocks_BBB.
+Definition fee_workbook (a : str) : option (list (list cell)) :=
+  if str_eqb a s_AAA then Some (render_sheet ok_cfg s_AAA blocks_AAA_fee [[CEmpty]]) else ok_workbook a.
+
+Lemma wf_AAA_fee : wf_blocks ok_cfg s_AAA 1 blocks_AAA_fee.
+Proof. simpl. split; [solve_block | split; [solve_block | exact I]]. Qed.
+Lemma fee_rendered : rendered_workbook ok_cfg fee_workbook fee_sheet ok_trailing [s_BBB; s_AAA].
+Proof.
+  intros a Ha. destruct Ha as [<-|[<-|[]]].
+  - split; [reflexivity|]. split; [exact wf_BBB|]. split; [simpl; repeat constructor; simpl; intuition discriminate|intros r []].
+  - split; [reflexivity|]. split; [exact wf_AAA_fee|]. split; [simpl; repeat constructor; simpl; intuition discriminate|].
+    intros r [<-|[]]. reflexivity.
+Qed.
+
+Definition fee_ps : list (str * parsed) :=
+  Eval vm_compute in match expected_all ok_cfg fee_sheet [s_BBB; s_AAA] 0 with Ok ps => ps | Err _ => [] end.
+Definition i_dflt : rinput := rinput_of US opts0 0 ok_s [] [].
+Definition fee_i : rinput := Eval vm_compute in match e2e_input US opts0 0 ok_s fee_ps with Some i => i | None => i_dflt end.
+
+Example e2e_crypto_fee_nonvacuous :
+  map (fun ap => (fst ap, map i_row (pa_ins (snd ap)), map o_row (pa_outs (snd ap)), pa_counter (snd ap))) fee_ps =
+    [(s_BBB, [3; 4], [9], 0); (s_AAA, [8], [4; -1], -1)] /\
+  rp2_model US opts0 ok_secs ok_ts fee_workbook (wv 0) 0 = back_end US opts0 (wv 0) 0 ok_s fee_ps /\
+  e2e_input US opts0 0 ok_s fee_ps = Some fee_i /\
+  (exists cs, computed_all fee_i (rp_assets fee_i) = Ok cs) /\ reports_ok_hyps (wv 0) fee_i /\
+  exists l, rp2_model US opts0 ok_secs ok_ts fee_workbook (wv 0) 0 = (0, l) /\ map fst l = discovery US /\
+            (forall g sheets, In (g, sheets) l -> run_gen (wv 0) fee_i g = inl sheets /\ within_capacity g sheets).
+Proof.
+  assert (O : options_check US (l1_options opts0) (Ok ok_s) = (0, [s_BBB; s_AAA])) by (vm_compute; reflexivity).
+  assert (E : expected_all (pcfg_of ok_s ok_ts) fee_sheet [s_BBB; s_AAA] 0 = Ok fee_ps) by (vm_compute; reflexivity).
+  assert (NE : forall a p, In (a, p) fee_ps -> pa_ins p <> []).
+  { intros a p H. vm_compute in H. destruct H as [[= <- <-]|[[= <- <-]|[]]]; discriminate. }
+  pose proof (e2e_seam US opts0 ok_secs ok_ts fee_workbook (wv 0) 0 ok_s [s_BBB; s_AAA] fee_sheet ok_trailing fee_ps
+                ok_valid O fee_rendered E NE) as SEAM.
+  assert (HI : e2e_input US opts0 0 ok_s fee_ps = Some fee_i) by (vm_compute; reflexivity).
+  assert (HC : exists cs, computed_all fee_i (rp_assets fee_i) = Ok cs) by (eexists; vm_compute; reflexivity).
+  assert (RH : reports_ok_hyps (wv 0) fee_i) by (apply reports_ok_b_sound; vm_compute; reflexivity).
+  split; [vm_compute; reflexivity|]. split; [exact SEAM|]. split; [exact HI|]. split; [exact HC|]. split; [exact RH|].
+  assert (FA : front_accepts US opts0 ok_secs ok_ts fee_workbook ok_s [s_BBB; s_AAA] fee_ps).
+  { split; [exact ok_valid|]. split; [exact O|].
+    apply (parse_all_rendered _ fee_workbook fee_sheet ok_trailing [s_BBB; s_AAA] 0 fee_ps fee_rendered); [|exact E|exact NE].
+    exact (proj2 (options_check_passed _ _ _ _ O)). }
+  destruct (e2e_success_of_computed US opts0 ok_secs ok_ts fee_workbook (wv 0) 0 ok_s [s_BBB; s_AAA] fee_ps fee_i FA
+              (proj1 run_total_example) (or_introl eq_refl) (Forall_nil _) HI HC RH) as (l & R & DL & HG & _).
+  exists l. auto.
 Qed.
